@@ -187,6 +187,17 @@ def run(ctx):
         directed(ctx, mod)
     finally:
         inst.uninstall()
+    if ctx.shard == 0:
+        # the addition is a function of its operands, also while other threads add deltas (no monitor installed here:
+        # the single-threaded outcomes it is compared with were judged above)
+        from vf import concurrent as CC
+        import dateutil._common as common
+        import random
+        r2 = random.Random(ctx.seed + 77)
+        zs = zones()
+        pool = [(gen_dt(r2, zs), mod.relativedelta(**gen_kw(r2, mod.weekday))) for _ in range(150)]
+        pool += [(D.date(y, m, calendar.monthrange(y, m)[1]), mod.relativedelta(months=k)) for y in (2000, 2021) for m in range(1, 13) for k in (-1, 1, 13)]
+        CC.concurrent_pure(ctx, 'additions', [mod, common], lambda a: a[0] + a[1], pool, 12 if ctx.tier == 'quick' else 200)
 
 
 def directed(ctx, mod):
@@ -247,6 +258,8 @@ def _repo_tests(ctx):
 
 def floors(agg, tier):
     c, out = agg['counters'], []
+    from vf import concurrent as CC
+    CC.floor(c, 'additions', 1500, 1000, out)
     need = {'quick': 15000, 'thorough': 150000}[tier]
     if agg['evaluations'] < need:
         out.append('only %d monitored evaluations (< %d)' % (agg['evaluations'], need))
